@@ -466,7 +466,8 @@ def rule_CODE(FA):
                         bad = (s_.get('line', ''), show(amt)[:60], show(others[0]))
             key = 'R-CODE|%s%s' % (fn_key(pf), spec_key(spec))
             props = props_of_module(fn_key(pf))
-            for off in (offsets if pf['name'] != 'new' else []):    # the readers; the builder counts its shift differently
+            is_reader = pf['name'].startswith(('rank', 'select', 'get')) and (pf['exported'] or pf['pub'] or bool(pf['impl_trait']))
+            for off in (offsets if is_reader else []):    # the readers; the builder (and its helpers) count the shift differently
                 by_base.setdefault(pf.get('_base'), []).append((off, fn_key(pf), spec_key(spec)))
             if bad:
                 out.append(Inst('R-CODE', key, 'violation', bad[0],
@@ -611,7 +612,11 @@ def rule_CGEN(FA):
             continue
         own = [g['name'] for g in f.get('generics', []) if g['kind'] == 'const']
         for c in own:
-            used = any(c in _mentions_const(g, c) for g in FA.with_closures(f))
+            # used as a value in the body, or in the types of the signature (`[Vec<T>; N]`)
+            # ... or handed on to a callee / a local's type (`GroupCursors::<N>::new(..)`)
+            in_sig = any(re.search(r'\b%s\b' % re.escape(c), ty) for g in FA.with_closures(f) for ty in g['locals'])
+            passed = any(c in [str(x) for x in t['f']['fn'].get('gargs', [])] for g in FA.with_closures(f) for b in g['blocks'] for t in [b['t']] if t['k'] == 'call' and 'fn' in t['f'])
+            used = in_sig or passed or any(c in _mentions_const(g, c) for g in FA.with_closures(f))
             key = 'R-CGEN|%s|%s' % (fn_key(f), c)
             props = props_of_module(fn_key(f))
             if used:
